@@ -104,7 +104,8 @@ pub fn run_with_vm_and_opt(
         }
     })?;
 
-    let mut optimizer = Optimizer::new(opt_level);
+    // this input is one unit of a session: a later input may redefine its top-level names
+    let mut optimizer = Optimizer::for_session_unit(opt_level);
     let typed_program = optimizer.optimize(typed_program);
 
     let existing_globals = vm.global_mutability().clone();
